@@ -67,6 +67,16 @@ concurrent map writes`; a method that forgets the lock makes this obligation fai
 theorem kind_mapper_locked : C05_kindmapper_full ∧ kindMapperMutexFields ≠ [] := by
   unfold C05_kindmapper_full; decide
 
+/-- **kind_mapper_check_then_act**: the premise of `assert_kinds_idempotent` as a fact of the lock table: every method
+that writes the shared fields holds the lock AND looks the kind up (comma-ok read of a shared map) before its first
+write in the SAME body, i.e. the existence check and the allocation are one critical section; `AssertKinds` itself
+writes nothing and allocates only by calling `Put`. -/
+theorem kind_mapper_check_then_act :
+    (kindMapperMethods.filter (·.writes)).all (fun m => m.holdsLock && m.checksBeforeWrite) = true
+    ∧ (kindMapperMethods.filter (fun m => m.name == "AssertKinds")).all (fun m => !m.writes && m.calls.contains "Put"
+        && m.calls.all (fun c => c == "Put" || c == "mapKinds")) = true
+    ∧ kindMapperMethods.any (fun m => m.name == "AssertKinds") = true := by decide
+
 /-- only `Put` writes the shared fields -/
 theorem kind_mapper_single_writer : (kindMapperMethods.filter (·.writes)).map (·.name) = ["Put"] := by decide
 
